@@ -339,6 +339,9 @@ class Report:
             json.dump(ev, f, indent=1, default=str)
         for fid, text in sorted(self.known.items()):
             print('KNOWN-FINDING: property=%s %s' % (self.pid, text))
+        for f in os.listdir(REPLAYS):
+            if f.startswith(self.pid + '_'):
+                os.remove(os.path.join(REPLAYS, f))
         if self.violations:
             for i, (what, replay, no_input) in enumerate(self.violations[:5]):
                 path = os.path.join(REPLAYS, '%s_%d.json' % (self.pid, i))
